@@ -559,7 +559,10 @@ fn check_gen<T: RealNumber>(c: &mut Case, inp: &GenInput) {
     // enters the backward error of the back-substituted eigenvectors; worst observed in 5.2 million matrices
     // 1.45e4·n·ε (f64, block-triangular with close eigenvalues in different blocks)
     let tg = 1e4 * n as f64 * ep;
-    let tgv = 1e5 * n as f64 * ep;
+    // eigenvector residuals and complex-eigenvalue backward errors use the same constant; the rare cases in
+    // which the elimination-based (non-orthogonal) Hessenberg reduction loses more digits are recorded as an
+    // open known finding (block-triangular matrices), not absorbed by a looser constant
+    let tgv = 1e4 * n as f64 * ep;
     let an = a.fro();
     let an0 = inp.alt.as_ref().map(|x| x.0.fro());
 
@@ -631,7 +634,7 @@ fn check_gen<T: RealNumber>(c: &mut Case, inp: &GenInput) {
         c.check("gen.real-eigenvector-nonzero-finite", true, &sg, String::new);
         if !real_idx.is_empty() {
             c.bucket_if(worst_alt_used, "residual:judged-in-balanced-coordinates");
-            c.ratio("gen.Av=dv", worst, 1.0, &sg, || format!("‖A·v − d·v‖ / (1e5·n·ε·‖A‖_F·‖v‖) for column {} (d = {:e})", worst_j, if worst_j < n { d[worst_j] } else { f64::NAN }));
+            c.ratio("gen.Av=dv", worst, 1.0, &sg, || format!("‖A·v − d·v‖ / (1e4·n·ε·‖A‖_F·‖v‖) for column {} (d = {:e})", worst_j, if worst_j < n { d[worst_j] } else { f64::NAN }));
         }
     }
 
@@ -664,7 +667,7 @@ fn check_gen<T: RealNumber>(c: &mut Case, inp: &GenInput) {
             }
             worst = ratio;
         }
-        c.ratio("gen.complex-eigenvalue-backward-error", worst, 1.0, &sg, || format!("σ_min(A − λI) / (1e5·n·ε·‖A‖_F) for λ = {:e} + {:e}i", d[wi], e[wi]));
+        c.ratio("gen.complex-eigenvalue-backward-error", worst, 1.0, &sg, || format!("σ_min(A − λI) / (1e4·n·ε·‖A‖_F) for λ = {:e} + {:e}i", d[wi], e[wi]));
     }
 
     // ---- spectrum known by construction (normal matrices, S·diag(λ)·S⁻¹ with cond(S) ≤ 10)
@@ -1110,7 +1113,7 @@ fn main() {
         assumptions: vec![
             "oracle arithmetic is f64 with compensated sums on the already-rounded inputs",
             "symmetric: tau = 100·n·eps relative to ‖A‖_F (orthonormality: absolute); the comparison with the independent Jacobi reference uses 3·tau because it is implied by the residual and orthonormality oracles through Weyl's inequality",
-            "general: tau_g = 1e4·n·eps (traces, spectra) and 1e5·n·eps (eigenvector residuals, complex-eigenvalue backward error: the elimination-based Hessenberg reduction is not orthogonal and its growth factor enters) relative to ‖A‖_F (‖A‖_F² for the trace of the square); no ordering and nothing about the columns of complex eigenvalues is demanded",
+            "general: tau_g = 1e4·n·eps relative to ‖A‖_F (‖A‖_F² for the trace of the square); no ordering and nothing about the columns of complex eigenvalues is demanded",
             "general, badly balanced family only: an eigenpair residual / eigenvalue backward error is accepted when it is small either relative to ‖A‖_F or, in the coordinates A0 = D⁻¹·A·D in which the matrix was generated, relative to ‖A0‖_F (a solver that balances is backward stable in balanced coordinates only)",
             "'the returned values are the spectrum' is monitored through the stated trace identities, the conjugate pairing, σ_min(A − λI) ≤ tau_g‖A‖_F for every complex eigenvalue (certificate by inverse iteration, exact Jacobi SVD before an alarm) and, where the spectrum is known by construction and perfectly conditioned (normal matrices; cond(S) ≤ 10 with factor 10), a bottleneck matching against it",
         ],
